@@ -135,9 +135,15 @@ let js_action (a : action) : string =
 
 let print_outcome (id : string) (e : n) (o : outcome) : unit =
   let ticks = List.filter_map (fun ev -> match ev with EvTick c -> Some c | _ -> None) o.o_events in
+  (* tree-traversal ticks: the tick that follows the marker [EvFixed 0] emitted by [tick_tree] *)
+  let rec tree_ticks evs = match evs with
+    | EvFixed N0 :: EvTick c :: r -> c :: tree_ticks r
+    | _ :: r -> tree_ticks r
+    | [] -> [] in
+  let tree = tree_ticks o.o_events in
   Printf.printf
-    "{\"id\":%s,\"e\":%s,\"cls\":%s,\"code\":%s,\"rem\":%s,\"state\":%s,\"kv\":%s,\"logs\":%s,\"rv\":%s,\"actions\":%s,\"ints\":%s,\"changed\":%s,\"hashes\":%s,\"unspec\":%s,\"lower\":%s,\"nested\":%s,\"ticks\":%s}\n"
-    id (js_n e) (str_of_n o.o_class) (js_n o.o_code) (js_n o.o_rem) (js_hex o.o_state)
+    "{\"tree\":%s,\"id\":%s,\"e\":%s,\"cls\":%s,\"code\":%s,\"rem\":%s,\"state\":%s,\"kv\":%s,\"logs\":%s,\"rv\":%s,\"actions\":%s,\"ints\":%s,\"changed\":%s,\"hashes\":%s,\"unspec\":%s,\"lower\":%s,\"nested\":%s,\"ticks\":%s}\n"
+    (js_list js_n tree) id (js_n e) (str_of_n o.o_class) (js_n o.o_code) (js_n o.o_rem) (js_hex o.o_state)
     (js_list (fun (k, v) -> "[" ^ js_hex k ^ "," ^ js_hex v ^ "]") o.o_kv)
     (js_list (js_list js_hex) o.o_logs) (js_hex o.o_rv) (js_list js_action o.o_actions)
     (js_list js_hex o.o_ints) (js_list js_b o.o_changed)
